@@ -332,6 +332,8 @@ pub struct GraphOpts {
     pub allow_single_external: bool,
     pub named_prob: f64,
     pub d_choices: Vec<usize>,
+    /// probability of a graph with two connected components (externals in the first one)
+    pub disconnected_prob: f64,
 }
 
 impl GraphOpts {
@@ -343,6 +345,7 @@ impl GraphOpts {
             allow_single_external: false,
             named_prob: 0.3,
             d_choices: vec![1, 2, 3, 4, 5, 6],
+            disconnected_prob: 0.0,
         }
     }
 }
@@ -351,7 +354,7 @@ impl GraphOpts {
 /// convergence region (every sub-dod > 0 and overall dod > 0). Retries internally.
 pub fn accepted_graph(rng: &mut Rng, o: &GraphOpts) -> Option<(GraphSpec, String)> {
     for _ in 0..40 {
-        let (name, mut edges) = if rng.chance(o.named_prob) {
+        let (name, mut edges): (String, Vec<(u8, u8)>) = if rng.chance(o.named_prob) {
             let all = named_topologies();
             let cands: Vec<_> = all
                 .into_iter()
@@ -376,6 +379,19 @@ pub fn accepted_graph(rng: &mut Rng, o: &GraphOpts) -> Option<(GraphSpec, String
             (format!("random(L={},E={},{})", loops, ne, if bridgeless { "ear" } else { "tree+" }), random_connected(rng, loops, ne, bridgeless))
         };
         let vs = vertices_of(&edges);
+        // optional second component (small), externals stay in the first one
+        let mut name = name;
+        let mut second: Vec<(u8, u8)> = vec![];
+        if rng.chance(o.disconnected_prob) && edges.len() + 1 <= o.max_edges {
+            let room = (o.max_edges - edges.len()).min(3);
+            let l2 = 1 + rng.below(room.min(2));
+            let ne2 = l2 + rng.below(room - l2 + 1);
+            let l1 = edges.len() + 1 - vs.len();
+            if l1 + l2 <= o.max_loops.max(2) {
+                second = random_connected(rng, l2, ne2.max(l2), true).into_iter().map(|(a, b)| (a + 100, b + 100)).collect();
+                name = format!("{}+component(L={},E={})", name, l2, second.len());
+            }
+        }
         // externals
         let mut ext: Vec<u8> = vec![];
         let r = rng.f();
@@ -395,6 +411,7 @@ pub fn accepted_graph(rng: &mut Rng, o: &GraphOpts) -> Option<(GraphSpec, String
         let mut pool = vs.clone();
         rng.shuffle(&mut pool);
         ext.extend(pool.iter().take(n_ext));
+        edges.extend(second);
         let ne = edges.len();
         let r = rng.f();
         let massive: Vec<bool> = if r < 0.3 {
